@@ -14,6 +14,7 @@ import Driver.C05
 import Driver.C19
 import Driver.C20
 import Driver.C06
+import Driver.C15
 open Driver
 
 /-- dispatch one request line; returns the output lines -/
@@ -40,6 +41,7 @@ def dispatch (line : String) : IO (List String) := do
   | "c19" :: args => cmdC19 args
   | "c20" :: args => cmdC20 args
   | "c06" :: args => cmdC06 args
+  | "c15" :: args => cmdC15 args
   | _ => return ["error unknown-command"]
 
 partial def loop (hin : IO.FS.Stream) (hout : IO.FS.Stream) : IO Unit := do
